@@ -164,10 +164,10 @@ func sortedTypeNames(typeMap TypeMap) []string {
 //Add Implementations at Runtime..
 func (gq *Schema) AddImplementation() error {
 
-	// Keep track of all implementations by interface name.
-	if gq.implementations == nil {
-		gq.implementations = map[string][]*Object{}
-	}
+	// Keep track of all implementations by interface name. The table is
+	// rebuilt from the whole type map, so start from an empty one: appending to
+	// the existing table would list every implementer once more per call.
+	gq.implementations = map[string][]*Object{}
 	for _, typeName := range sortedTypeNames(gq.typeMap) {
 		if ttype, ok := gq.typeMap[typeName].(*Object); ok {
 			for _, iface := range ttype.Interfaces() {
